@@ -438,6 +438,9 @@ type Interp struct {
 	UseInitValues bool
 	initDone      map[*ssa.Package]bool
 	inInit        bool
+	// PreferNonNilSlice: merging a nil slice with a non-nil one yields the non-nil one (for
+	// (value, error) results inspected only under the premise that the error is nil).
+	PreferNonNilSlice bool
 	// Obligations: side conditions a model relied on (e.g. "this number has two decimal digits");
 	// the property code must show each of them valid under its premise.
 	Obligations []*Node
@@ -1014,6 +1017,16 @@ func (it *Interp) mux(c *Node, a, b Value) Value {
 	case SliceV:
 		if y, ok := b.(SliceV); ok && x == y {
 			return x
+		}
+		// (value, error) results: on the error arm the slice is nil.  When the caller only looks at
+		// the value under the premise "no error", the non-nil arm is the value.
+		if y, ok := b.(SliceV); ok && it.PreferNonNilSlice {
+			if x.Nil && !y.Nil {
+				return y
+			}
+			if y.Nil && !x.Nil {
+				return x
+			}
 		}
 	case Ptr:
 		if y, ok := b.(Ptr); ok && x == y {
@@ -1833,6 +1846,10 @@ func (it *Interp) binop(x *ssa.BinOp, a, b Value) Value {
 				}
 			} else if bvEqual(a, b) {
 				eq = 1
+			} else if ha, ok := a.(HandleV); ok {
+				if hb, ok := b.(HandleV); ok {
+					eq = b2i(ha == hb) // two opaque objects: the same one or not
+				}
 			} else if pa, ok := a.(Ptr); ok {
 				// two pointers: equal iff they designate the same cell (distinct objects have distinct addresses)
 				if pb, ok := b.(Ptr); ok && pa.Sym == nil && pb.Sym == nil {
